@@ -275,6 +275,7 @@ impl PacketSender {
     }
 }
 
+
 #[cfg(test)]
 mod tests {
     use super::*;
